@@ -1,0 +1,36 @@
+//! Re-exports of crate-private items for the external verification harness.
+//!
+//! Compiled only with `--cfg truth_verif`.  Adds no behaviour of its own.
+
+use crate::game::{Game, LanguageKey};
+use crate::llir::LanguageHooks;
+use crate::mapfile::Mapfile;
+use crate::diagnostic::RootEmitter;
+
+/// The built-in signature/register tables for one language of one game.
+pub fn core_mapfile(emitter: &RootEmitter, game: Game, language: LanguageKey) -> Mapfile {
+    crate::core_mapfiles::core_mapfile(emitter, game, language)
+}
+
+/// The language hooks the real file formats use, or `None` where the game has no such language.
+pub fn language_hooks(game: Game, language: LanguageKey) -> Option<Box<dyn LanguageHooks>> {
+    match language {
+        LanguageKey::Anm => Some(crate::formats::anm::verif_language_hooks(game)),
+        LanguageKey::Msg | LanguageKey::End => crate::formats::msg::verif_language_hooks(game, language),
+        LanguageKey::Std => Some(crate::formats::std::verif_language_hooks(game)),
+        LanguageKey::Ecl | LanguageKey::Timeline => crate::formats::ecl::ecl_06::verif_language_hooks(game, language),
+        LanguageKey::Dummy => None,
+    }
+}
+
+/// Pixel transcoders of `image::color`.
+pub mod color {
+    pub use crate::image::ColorFormat;
+}
+
+/// Difficulty-switch helpers.
+pub mod diff_switch {
+    pub use crate::diff_switch_utils::*;
+}
+
+pub use crate::bitset::BitSet32;
